@@ -13,6 +13,9 @@ func SeamAvailable() bool { return true }
 var (
 	mapCtx    *Ctx
 	mapPaused int
+	// DefaultRot: outside an exploration every map iteration starts at the (DefaultRot mod n)-th of its n
+	// possible starting points: 0 is the canonical order, any other value one fixed rotated order.
+	DefaultRot int
 	// MapPoints counts map iterations (over maps with >= 2 entries) seen while the hook was active.
 	MapPoints int64
 )
@@ -23,18 +26,24 @@ func mapHook(count int, b uint8, occupied uint8) uintptr {
 	}
 	MapPoints++
 	c := mapCtx
-	if c == nil {
+	if c == nil && DefaultRot == 0 {
 		return 0 // deterministic default order
 	}
 	mapPaused++
 	defer func() { mapPaused-- }()
+	choose := func(label string, n int) int {
+		if c == nil {
+			return DefaultRot % n
+		}
+		return c.Choose("MAPITER", label, n, nil)
+	}
 	if b == 0 {
 		n := bits.OnesCount8(occupied)
 		if n < 2 {
 			return 0
 		}
 		// alternatives: start at the k-th occupied slot, k = 0 being the first occupied one
-		k := c.Choose("MAPITER", "", n, nil)
+		k := choose("", n)
 		for slot := uintptr(0); slot < 8; slot++ {
 			if occupied&(1<<slot) != 0 {
 				if k == 0 {
@@ -50,24 +59,25 @@ func mapHook(count int, b uint8, occupied uint8) uintptr {
 	if n > 64 {
 		n = 64
 	}
-	k := c.Choose("MAPITER", "multi-bucket", n, nil)
+	k := choose("multi-bucket", n)
 	bucket := uintptr(k) % (1 << b)
 	offset := uintptr(k) / (1 << b)
 	return bucket | offset<<b
 }
 
 // WithMapOrder runs f with every map iteration (maps of >= 2 entries) turned into a MAPITER choice
-// point of c; with c == nil every iteration takes the deterministic default order.
+// point of c; with c == nil every iteration takes the deterministic default order (DefaultRot).
 func WithMapOrder(c *Ctx, f func()) {
 	prev := mapCtx
 	mapCtx = c
-	runtime.VerifSetMapHook(mapHook)
-	defer func() {
-		runtime.VerifSetMapHook(nil)
-		mapCtx = prev
-	}()
+	defer func() { mapCtx = prev }()
 	f()
 }
+
+// The hook is installed for the whole life of the process: outside WithMapOrder every map iteration, in the
+// implementation and in the harness alike, takes the same order in every run (no randomness is left to the
+// runtime), so that a recorded case replays identically.
+func init() { runtime.VerifSetMapHook(mapHook) }
 
 // PauseMapOrder suspends the hook (harness-side code running inside the implementation, e.g. the mock storage).
 func PauseMapOrder() func() {
